@@ -366,11 +366,12 @@ class PatternExec(JSExec):
         self.trace = []
         return len(exits)
 
-def run_patterns(rep, spec, tier='quick', verbose=False, only=None, which=('grid', 'compound', 'float')):
+def run_patterns(rep, spec, tier='quick', verbose=False, only=None, which=('grid', 'compound', 'float'), select=None):
     cases = []
     if 'grid' in which: cases += build_grid(tier)
     if 'compound' in which: cases += compound_cases()
     if 'float' in which: cases += float_cases()
+    if select: cases = [c for c in cases if select(c)]
     if only: cases = [c for c in cases if only in c.name]
     gosrc = 'package main\n\nfunc main() {}\n\n' + '\n'.join(c.gosrc for c in cases) + '\n'
     with tempfile.TemporaryDirectory(prefix='gvc-pat-') as td:
